@@ -316,7 +316,7 @@ int main(int argc, char **argv) {
   bsx::Args a = bsx::parse(argc, argv);
   if (a.has_case) {
     bsx::Outcome o;
-    bsx::contained(0, 1, [&](long long) { return run_case(a.cas); }, [&](long long, const bsx::Outcome &r) { o = r; });
+    bsx::contained(0, 1, [&](long long) { return run_case(a.cas); }, [&](long long, const bsx::Outcome &r) { o = r; }, 10);
     if (o.ok) { printf("case holds\n"); return 0; }
     printf("case FAILS: key=%s %s\n", o.key.c_str(), o.what.c_str());
     return 3;
@@ -393,6 +393,7 @@ int main(int argc, char **argv) {
             std::string cas = cfgstr(c) + ";ops=" + opstr(cand[i]);
             if (!o.ok) {
               std::string key = o.key;
+              if (key == "fatal" && o.what.find("signal 14") != std::string::npos) key = std::string(c.per ? "periodic" : "nonperiodic") + "-hang";
               if (key == "fatal") {
                 bool huge = false;
                 for (auto &op : cand[i]) if (op.kind == 'P' && std::fabs(op.v) > 1e15) huge = true;
@@ -409,7 +410,7 @@ int main(int argc, char **argv) {
               nextf.push_back(cand[i]);
               if (R.samples.size() < 4 && d >= 2) R.sample(cas + " -> bins " + o.extra);
             }
-          });
+          }, 10);
       // keep the frontier bounded for depth>=2: expand only states whose last op is in the reduced alphabet
       if (d == 1) {
         std::vector<std::vector<Op>> keep;
@@ -464,13 +465,13 @@ int main(int argc, char **argv) {
           const LCase &c = L[mineidx[i]];
           R.eval(); R.counters[c.data0.empty() ? "legacy_cases" : "legacy_reuse_cases"]++;
           if (!o.ok) {
-            std::string key = o.key == "fatal" ? std::string("legacy-out-of-bounds-scale-") + c.scale : o.key;
+            std::string key = o.key == "fatal" ? (o.what.find("signal 14") != std::string::npos ? std::string("legacy-hang") : std::string("legacy-out-of-bounds-scale-") + c.scale) : o.key;
             R.fail(key, o.what + (o.key == "fatal" ? "  [" + lstr(c) + "]" : ""), lstr(c));
             return;
           }
           R.cls(o.cls);
           if (R.samples.size() < 7 && i % 997 == 5) R.sample(lstr(c) + " -> pdf " + o.extra);
-        }, 20);
+        }, 3);
   }
   R.assumptions = {"Eigen index assertions (thrown as exceptions), _GLIBCXX_ASSERTIONS and ASan are the oracle for 'touches no memory outside the histogram'",
                    "values within 1e-9 step of a bin edge may go to either neighbouring bin; |index| > 9e15 may go to any bin (periodic) / must be discarded (non-periodic)",
